@@ -92,6 +92,15 @@ def fill_post(st, K, pre, selfv, a, r, d, w):
             body += [v1.isfin(), v1.r + (E + wr) * m1.r * m1.r == S2_0 + wr * q.r * q.r]
             gs.append(z3.Implies(z3.Or(q.nan, z3.And(z3.Not(empty), m0.nan)), v1.nan))
         gs.append(z3.Implies(fin_case, z3.And(body)))
+        # infinite data (the extended-real weighted mean, as the merge computes it): opposite infinities give nan, an
+        # infinite datum gives the mean its sign, a finite datum leaves an infinite mean alone
+        prev = Fl.ite(empty, q, m0)
+        no_nan = z3.And(z3.Not(q.nan), z3.Not(prev.nan))
+        inf_case = z3.And(no_nan, z3.Or(prev.isinf(), q.isinf()))
+        opposite = z3.Or(z3.And(prev.pinf, q.ninf), z3.And(prev.ninf, q.pinf))
+        gs.append(z3.Implies(inf_case, m1.same(Fl.ite(opposite, Fl.const(float("nan")), Fl.ite(q.isinf(), q, prev)))))
+        if K == "Deviate":
+            gs.append(z3.Implies(inf_case, v1.nan))
     elif K == "Bag":
         m = a["values"]
         rng = a["range"].t
